@@ -82,8 +82,11 @@ def cases(tier, seed):
             for mode in ('symbolic', 'numeric'):
                 out.append(dict(kind='expr', cfg=cfg, expr=e, mode=mode, res_like=False))
             out.append(dict(kind='expr', cfg=cfg, expr=e, mode='symbolic', res_like=True))
-        for e in ('sw', 'gp', 'odd', 'gp-right', 'half'):
+            if len(EXPRS[e]) == 3 and EXPRS[e][1] is not None:
+                out.append(dict(kind='expr', cfg=cfg, expr=e, mode='numeric', res_like=True))
+        for e in ('sw', 'gp', 'odd', 'gp-right', 'half', 'cp'):
             out.append(dict(kind='expr', cfg=cfg, expr=e, mode='array', res_like=False))
+            out.append(dict(kind='expr', cfg=cfg, expr=e, mode='array', res_like=True))
     return out
 
 
@@ -209,7 +212,11 @@ def _run_expr(desc, V, alg):
     x_sym = sym_inputs[-1]
     res_like = None
     if desc.get('res_like'):
-        yk = list(f(*num_inputs).keys())
+        if mode == 'array':
+            first = [MultiVector.fromkeysvalues(alg, tuple(m.keys()), [Fraction(v) for v in arr[:, 0]]) for m, arr in zip(sym_inputs[:-1], num_inputs[:-1])]
+            yk = list(f(*first, num_inputs[-1]).keys())
+        else:
+            yk = list(f(*num_inputs).keys())
         if not yk:
             return [Eq('empty-result', 1, 1)]
         res_like = alg.multivector(keys=tuple(yk[::2] or yk[:1]), values=[1] * len(yk[::2] or yk[:1]))
@@ -221,7 +228,13 @@ def _run_expr(desc, V, alg):
             elem_inputs = [MultiVector.fromkeysvalues(alg, tuple(m.keys()), [Fraction(v) for v in arr[:, t]]) for m, arr in zip(sym_inputs[:-1], num_inputs[:-1])]
             elem_inputs.append(num_inputs[-1])
             direct = coeffs(f(*elem_inputs))
+            if res_like is not None:
+                direct = {k: direct.get(k, 0) for k in res_like.keys()}
             ykeys = list(y.keys())
+            if len(A) != len(ykeys):
+                return claims + [Fail('A:rows', f'A has {len(A)} rows for {len(ykeys)} result blades', fkey=f'expr|{mode}|shape')]
+            if res_like is not None and tuple(ykeys) != tuple(res_like.keys()):
+                claims.append(Fail('y:keys', f'y stores blades {tuple(ykeys)}, res_like asked for {tuple(res_like.keys())}', fkey=f'expr|{mode}|res_like-keys'))
             for i, k in enumerate(ykeys):
                 row = 0
                 for j in range(len(xs)):
